@@ -17,7 +17,7 @@ from harness import coqfmt as cf
 PROP = "C10"
 COQ = dict(imports=["Model.Batch", "Spec.C10"], in_ty="input10", out_ty="output10",
            corr="corr_C10", decide="check_C10", model="model10")
-THEOREMS = ["C10_decider_sound", "C10_schema", "C10_rows", "C10_untouched", "C10_no_temp",
+THEOREMS = ["C10_decider_sound", "C10_main", "C10_schema", "C10_rows", "C10_rows_cell", "C10_rows_default", "C10_untouched", "C10_no_temp",
             "C10_constraint_by_new_name_refuted", "C10_readd_last_column_refuted", "C10_added_column_order_refuted"]
 TRUSTED = [
     "sqlalchemy.util.topological.sort (SQLAlchemy's, used for column ordering): transcribed as sa_tsort for the correspondence; "
